@@ -639,9 +639,10 @@ pub fn run(part: &mut Part) {
             let profiles = if TINY {
                 vec![
                     prof("empty x A_roll", vec![seed_empty()], a_roll(), if q { 5 } else { 6 }),
-                    prof("shared-file seeds x A_roll", seeds, a_roll(), if q { 3 } else { 4 }),
+                    prof("shared-file seeds x A_roll", seeds.clone(), a_roll(), if q { 3 } else { 4 }),
                     all_seeds_prof(a_roll(), if q { 2 } else { 3 }, q),
                     prof("mass release (5-33 files by one call) x (roll over, release, restart)", mass_release_seeds(), a_release(), if q { 4 } else { 5 }),
+                    prof("shared-file seeds x A_shapes (explicit positions 0 / next / far, truncations to 0 and 2^61, mixed empty payloads)", seeds.clone(), a_shapes(), if q { 2 } else { 3 }),
                 ]
             } else {
                 let mut s = vec![seed_empty()];
